@@ -2,9 +2,11 @@ import FxVerif.Gen.C17
 /-!
 # C17 model — the places where Go iterates a map or uses floating point on a state-affecting path
 
-`Gen.C17.sites` (typed translator, regenerated every run) lists every `range` over a map, every floating-point
-operation, `time.Now`, `go`, `select` and random-number call in the non-generated, non-CLI code of `x/…`, `app`, `ante`,
-`types`, `contract`.  Each site is assigned a *class*; each class has an order- and platform-independence theorem in
+`Gen.C17.sites` (typed translator, regenerated every run) lists every `range` over a map (with a syntactic class of its
+body; `+exit` marks a `break` / non-constant `return` out of the loop), every floating-point operation (marked
+`in-maprange` when it is executed inside a range over a map; accumulations carry the shape of what is added),
+`time.Now`, `go`, `select` and random-number call in the non-generated, non-CLI code of `x/…`, `app`, `ante`, `types`,
+`contract`.  Each site is assigned a *class*; each class has an order- and platform-independence theorem in
 `Props/C17.lean` about the executable model of that computation given here.  A new site in the source is not in
 `reviewed`, so `inventory_covered` stops checking.
 -/
@@ -43,7 +45,9 @@ def reviewed : List (String × String × String × String × Class) := [
   ("x/crosschain/keeper", "Keeper.isNeedOracleSetRequest", "float", "types.BridgeValidators(currentOracleSet.Members).PowerDiff", .floatOfExactInt),
   ("x/crosschain/keeper", "MsgServer.AddDelegate", "float", "float32", .telemetry),
   ("x/crosschain/keeper", "MsgServer.AddDelegate", "float", "telemetry.SetGaugeWithLabels", .telemetry),
-  ("x/crosschain/types", "BridgeValidators.PowerDiff", "float", "assignop +=", .permSum),
+  ("x/crosschain/types", "BridgeValidators.PowerDiff", "float", "in-maprange assignop += exact-int", .permSum),
+  ("x/crosschain/types", "BridgeValidators.PowerDiff", "float", "in-maprange float64", .floatOfExactInt),
+  ("x/crosschain/types", "BridgeValidators.PowerDiff", "float", "in-maprange math.Abs", .floatOfExactInt),
   ("x/crosschain/types", "BridgeValidators.PowerDiff", "float", "binop /", .floatOfExactInt),
   ("x/crosschain/types", "BridgeValidators.PowerDiff", "float", "float64", .floatOfExactInt),
   ("x/crosschain/types", "BridgeValidators.PowerDiff", "float", "math.Abs", .floatOfExactInt),
@@ -72,7 +76,13 @@ def classConsistent (s : Site) (c : Class) : Bool :=
     | _ => false
   else if s.kind == "float" then
     match c with
-    | .telemetry | .floatOfExactInt | .permSum | .pureCompare => true
+    | .telemetry | .pureCompare => true
+    -- the only float accumulation admitted inside a range over a map adds integers converted to float (exact below 2^53)
+    | .permSum => s.expr == "in-maprange assignop += exact-int"
+    -- conversions / |x| of integers inside the loop; one division, formatting and |x| after it: never float arithmetic
+    -- (a product, quotient or inexact sum) inside a range over a map
+    | .floatOfExactInt => ["in-maprange float64", "in-maprange math.Abs", "binop /", "float64", "math.Abs", "fmt.Sprintf",
+        "types.BridgeValidators(currentOracleSet.Members).PowerDiff"].contains s.expr
     | _ => false
   else false   -- time.Now / go / select / rand have no admissible class: any occurrence breaks the obligation
 
@@ -93,6 +103,27 @@ def mergePowers (b c : List (String × Nat)) : List (String × Int) :=
 
 /-- Σ |v| over the map values in iteration order `vals` -/
 def absSum (vals : List Int) : Nat := (vals.map Int.natAbs).sum
+
+/-! ### binary64 on non-negative integer values
+
+`round53 n` is the value `float64(n)` holds: `n` rounded to 53 significant bits, ties to even (IEEE-754 round-to-nearest-even;
+the exponent range is irrelevant for the magnitudes here).  `fadd` is the float addition of two such values: the exact sum,
+rounded.  `fsumAbs` is the loop `for _, v := range powers { delta += math.Abs(float64(v)) }` in a given iteration order.
+That Go's `float64(int64)` conversion and `+` are these functions is the (smaller) named assumption. -/
+
+def round53 (n : Nat) : Nat :=
+  let bits := if n = 0 then 0 else n.log2 + 1
+  if bits ≤ 53 then n else
+    let sh := bits - 53
+    let q := n / 2 ^ sh
+    let r := n % 2 ^ sh
+    let half := 2 ^ (sh - 1)
+    let q' := if r > half || (r == half && q % 2 == 1) then q + 1 else q
+    q' * 2 ^ sh
+
+def fadd (a b : Nat) : Nat := round53 (a + b)
+
+def fsumAbs (vals : List Int) : Nat := vals.foldl (fun acc v => fadd acc (round53 v.natAbs)) 0
 
 /-- the integer the float `delta` holds before the final division -/
 def powerDiffNumerator (b c : List (String × Nat)) : Nat := absSum ((mergePowers b c).map (·.2))
